@@ -5,13 +5,22 @@ BUILD_USED = '_ZNK7bluetoe10link_layer11channel_map22build_used_channel_mapEPKhP
 CHMAP = Unit('chmap', repo_tus=['bluetoe/link_layer/channel_map.cpp'], clang_flags=['-fno-inline'], stubs=[BUILD_USED + '$'], description='bluetoe::link_layer::channel_map (channel_map.cpp unchanged)')
 
 def cases(tier):
-    cs = []
-    hops0 = [4, 5, 9, 16, 17, 0, 31, 32] if tier == 'quick' else list(range(0, 33))
-    hops1 = [5, 11, 16] if tier == 'quick' else list(range(5, 17))
-    cs.append({'MODE': 2, 'HOP': 0, 'POS': 0})
-    for h in hops0: cs.append({'MODE': 0, 'HOP': h, 'POS': 0})
-    for h in hops1: cs.append({'MODE': 1, 'HOP': h, 'POS': 0})
-    if tier == 'thorough':
+    """MODE 2: table lemma (one query over all maps). MODE 0 / 1: selection lemma, one query per (hop, position) for the hop
+    values a connection can use (the position is a constant in each query, so the 37 positions are 37 cheaper queries instead of
+    one that needs 6 CPU-minutes); invalid hop values: one query each with all positions (nothing is computed there).
+    MODE 3: end-to-end cross-check without the contract stub."""
+    cs = [{'MODE': 2, 'HOP': 0, 'POS': 0}]
+    if tier == 'quick':
+        for h in (0, 4, 17, 31, 32): cs.append({'MODE': 0, 'HOP': h, 'POS': 37})
+        for h, ps in ((5, (0, 36)), (9, (5, 18)), (16, (0, 17, 36))):
+            for p in ps: cs.append({'MODE': 0, 'HOP': h, 'POS': p})
+        for h, p in ((5, 3), (16, 35)): cs.append({'MODE': 1, 'HOP': h, 'POS': p})
+    else:
+        for h in list(range(0, 5)) + list(range(17, 33)): cs.append({'MODE': 0, 'HOP': h, 'POS': 37})
+        for h in range(5, 17):
+            for p in range(37): cs.append({'MODE': 0, 'HOP': h, 'POS': p})
+        for h in range(5, 17):
+            for p in (0, 9, 18, 27, 36): cs.append({'MODE': 1, 'HOP': h, 'POS': p})
         for h, pos in ((5, 0), (7, 36), (16, 17)): cs.append({'MODE': 3, 'HOP': h, 'POS': pos})
     return cs
 
@@ -19,10 +28,10 @@ PROPERTY = Property(
     'C20',
     [Harness('c20_chmap', CHMAP, 'harness/c20_chmap.c', cases, unwind=39, timeout=900, flags=['-DVF_BUILD_USED=' + cid('@' + BUILD_USED)],
              description='channel_map::reset(map,hop), reset(map) and data_channel(i) against an independently written CSA#1, for all 2^37 channel maps (40 symbolic bits) per hop value',
-             bounds='all channel maps (5 symbolic bytes incl. the 3 reserved bits); hop 0..31 each as its own query (quick: boundary values 0,4,5,9,16,17,31 and >31), hop > 31 symbolic; all 37 positions of the hop sequence; previous table symbolic')],
+             bounds='all channel maps (5 symbolic bytes incl. the 3 reserved bits) in every query; thorough: hop 0..31 and >31 (symbolic), for hop 5..16 each of the 37 positions of the hop sequence as its own query; quick: table lemma, invalid hops 0,4,17,31,>31, and hop 5,9,16 at positions 0,5,17,18,36; previous table symbolic')],
     functions=['channel_map::reset(const uint8_t*, unsigned)', 'channel_map::reset(const uint8_t*)', 'channel_map::data_channel', 'channel_map::build_used_channel_map'],
     bounds='every channel map x every hop value x every position 0..36 of the hop sequence (the sequence has period 37, so this covers every connection event counter once the counter-to-index mapping of C23 is given)',
     assumptions=['the map pointer addresses 5 readable bytes (exact-size object)', 'data_channel is called with index < 37 (documented precondition; the index is the event counter modulo 37, see C23)'],
-    explanation='the 5 map bytes are symbolic, so one query per hop value covers all 2^37 maps; the result table is compared position by position with CSA#1 written from the Core specification; rejected parameters must leave the table in use unchanged',
+    explanation='the 5 map bytes are symbolic, so every query covers all 2^37 maps. Lemma 1: the real build_used_channel_map returns the used channels in ascending order and their number. Lemma 2: reset(), with its call to build_used_channel_map replaced by a contract stub that guarantees exactly lemma 1, fills every position of the hop sequence with the CSA#1 channel (declarative form: the unmapped channel if used, else the used channel with rank unmapped mod numUsed) and accepts exactly hop 5..16 with at least two used channels; rejected parameters leave the table in use unchanged. An end-to-end query without the stub cross-checks the decomposition',
     outside=['the mapping from connection event counter to table index (channel_index_ in peripheral_latency.hpp) is decided by C23', 'how link_layer reacts to a rejected connect request / channel map indication (C21, C22, C25)'],
 )
